@@ -57,7 +57,10 @@ pub const FAMILIES: [&str; 16] = ["nested-parens", "unclosed-parens", "misclosed
 
 pub fn run(out: &mut Out, tier: &str, _seed: u64) {
     let sizes: &[usize] = if tier == "thorough" { &[250, 500, 1000, 2000, 4000] } else { &[250, 500, 1000, 2000] };
+    // VERIF_SCALING_ONLY=<family>: measure one family again (bin/check re-measures before it reports growth)
+    let only = std::env::var("VERIF_SCALING_ONLY").ok();
     for fam in FAMILIES {
+        if only.as_deref().map_or(false, |o| o != fam) { continue; }
         for &n in sizes {
             let text = family(fam, n);
             let label = format!("family:{fam} n={n}");
